@@ -10,6 +10,8 @@ returns the k-th element of the uninterrupted sequence; at the end all live gene
 import hashlib
 import io
 
+import numpy as np
+
 from .. import tdmsgen as G
 from .. import harness as H
 from .. import families as F
@@ -45,6 +47,11 @@ def _files():
     db = F.daqmx_enc(2, [(3, 0, 0, 0, 0)], w)
     fs['daqmx'] = [G.seg([(A, da, F.DAQMX_SCALE_PROPS), (B, db, [F._uprop('NI_Number_Of_Scales', 1)])], chunks=2),
                    G.seg([(A, ['SAME']), (B, ['SAME'])], newlist=False, chunks=1)]
+    # the second segment restates both DAQmx indexes with the scalers at other byte offsets of the row (same paths, other layout)
+    da2 = F.daqmx_enc(2, [(5, 0, 4, 0, 0), (2, 0, 0, 0, 1)], w)
+    db2 = F.daqmx_enc(2, [(3, 0, 2, 0, 0)], w)
+    fs['daqmx-relayout'] = [G.seg([(A, da, F.DAQMX_SCALE_PROPS), (B, db, [F._uprop('NI_Number_Of_Scales', 1)])], chunks=2),
+                            G.seg([(A, da2), (B, db2)], chunks=2), G.seg([], meta=False, chunks=1)]
     fs['strings'] = [G.seg([(A, ['FULL', 'String', 2, 5]), (B, ['FULL', i32, 3])], chunks=2),
                      G.seg([(A, ['FULL', 'String', 2, 3]), (B, ['FULL', i32, 3])], chunks=1)]
     fs['nometa'] = [G.seg([(B, ['FULL', i16, 3]), (A, ['FULL', i32, 2])], chunks=1),
@@ -226,10 +233,10 @@ class Session(object):
             return ('ok', H.norm_scalar(r[1])) if r[0] == 'ok' else r
         if k == 'slice':
             r = H.guarded(self.ch[op[1]].__getitem__, slice(op[2], op[3], op[4]))
-            return ('ok', H.norm_array(r[1])) if r[0] == 'ok' else r
+            return ('ok', self._take(r[1])) if r[0] == 'ok' else r
         if k == 'read':
             r = H.guarded(self.ch[op[1]].read_data, op[2], op[3])
-            return ('ok', H.norm_array(r[1])) if r[0] == 'ok' else r
+            return ('ok', self._take(r[1])) if r[0] == 'ok' else r
         if k == 'newgen':
             self.gens['g'].append([self.ch[op[1]].data_chunks(), 0, False, op[1]])
             return ('ok', 'gen')
@@ -258,6 +265,18 @@ class Session(object):
                 g[2] = True
             return r
         raise ValueError(op)
+
+    @staticmethod
+    def _take(arr):
+        """normal form of a result; afterwards the caller post-processes its own array in place (a result belongs to the caller)"""
+        n_ = H.norm_array(arr)
+        try:
+            if isinstance(arr, np.ndarray) and arr.dtype.kind in 'iuf' and arr.flags.writeable and arr.size:
+                arr *= 0
+                arr += 77
+        except Exception:  # noqa
+            pass
+        return n_
 
     def key(self):
         """Canonical state: public observables + private refinements when present."""
